@@ -417,6 +417,35 @@ func ruleGracefulStopReturns(c *Ctx, rule string) {
 		}
 	}
 	c.floor(rule, n, 2, "WaitGroup waits (Stop, GracefulStop)")
+	// ... and the wait is performed on every path (an "already stopping" early return must wait too)
+	for _, name := range []string{"Stop", "GracefulStop"} {
+		fn := w.Func("(*ReverseTunnelServer)." + name)
+		if fn == nil {
+			c.fail(rule, name, "-", "not found")
+			continue
+		}
+		okAll := false
+		var deferred *ssa.Defer
+		allInstrs(fn, func(in ssa.Instruction) {
+			if d, ok := in.(*ssa.Defer); ok && calleeName(d) == "(*sync.WaitGroup).Wait" {
+				deferred = d
+			}
+		})
+		isWait := func(in ssa.Instruction) bool {
+			ci, ok := in.(ssa.CallInstruction)
+			if !ok || calleeName(ci) != "(*sync.WaitGroup).Wait" {
+				return false
+			}
+			_, isD := in.(*ssa.Defer)
+			return !isD
+		}
+		if deferred != nil {
+			okAll = pathAvoiding(fn, nil, isExit, func(in ssa.Instruction) bool { return in == ssa.Instruction(deferred) }) == nil
+		} else {
+			okAll = pathAvoiding(fn, nil, isExit, isWait) == nil
+		}
+		c.check(okAll, rule, name+": waits for the Serve calls on every path", posOf(w, fn), "wg.Wait() on every path (deferred first, or before every return)", name+" has a return path that does not wait for the Serve calls (e.g. the 'already stopping' early return): a second or concurrent call returns while RPCs are in flight and Serve is still running")
+	}
 }
 
 var _ = fmt.Sprint
